@@ -52,6 +52,15 @@ fn strategy(mk: fn(usize) -> Spec) -> impl Fn(Tier) -> BoxedStrategy<Case> + Sen
     }
 }
 
+/// long histories with small windows (300..1200 values, N <= 8): out of reach of the 5N+8 streams above
+fn strategy_long(mk: fn(usize) -> Spec) -> impl Fn(Tier) -> BoxedStrategy<Case> + Send + Sync {
+    move |tier: Tier| {
+        (1usize..=8, gen::dyadic_scale())
+            .prop_flat_map(move |(n, sc)| gen::long_stream(StreamCfg::new(n).scale(sc).kmax(512), 300, tier.pick(1200, 5000)).prop_map(move |xs| Case::of(mk(n), xs)))
+            .boxed()
+    }
+}
+
 fn labels_for(case: &Case, n: usize) -> (bool, Vec<String>) {
     let l = gen::shape_labels(&case.xs, n);
     let distinct_vals = {
@@ -70,7 +79,7 @@ fn check_q(vd: &'static ViewDef) -> impl Fn(&Case) -> Verdict + Send + Sync {
         let spec = case.spec();
         let n = spec.own_windows()[0];
         let h = bigs(&case.xs);
-        let id = format!("C02/{}/definition/Q", vd.name);
+        let id = format!("C02/{}/{}/Q", vd.name, if case.xs.len() >= 300 { "long" } else { "definition" });
         let maxabs = running_max_abs(&h);
         let wants = (vd.reference)(&h, n);
         // run the view; WelfordOnline additionally exposes mean() and variance()
@@ -118,7 +127,7 @@ fn check_f64(vd: &'static ViewDef) -> impl Fn(&Case) -> Verdict + Send + Sync {
         let n = spec.own_windows()[0];
         let h = bigs(&case.xs);
         let xs = f64s(&case.xs);
-        let id = format!("C02/{}/definition/f64", vd.name);
+        let id = format!("C02/{}/{}/f64", vd.name, if case.xs.len() >= 300 { "long" } else { "definition" });
         let maxabs = running_max_abs(&h);
         let mut wants = (vd.reference)(&h, n);
         if matches!(vd.kind, Kind::StdRatio) {
@@ -187,6 +196,9 @@ pub fn clauses() -> Vec<Clause> {
         let rule = "N in 1..40 (thorough 1..300) with boundary bias, dyadic grid 2^-e, grammar stream of 0..5N+8 values (ties, zeros, negatives, flats, spikes, runs, shorter than N); compared with the batch definition at every step. Non-trivial: at least N+2 evictions and a non-constant stream; labels record evicts / tie / zero / negative / flat_window / extremum_evicted / shorter_than_N.";
         v.push(Clause::generated("C02", format!("C02/{}/definition/Q", vd.name), rule, 1500, 40_000, strategy(vd.mk), check_q(vd)).with_shard(150));
         v.push(Clause::generated("C02", format!("C02/{}/definition/f64", vd.name), rule, 1500, 40_000, strategy(vd.mk), check_f64(vd)).with_shard(300));
+        let lrule = "long histories: N in 1..8, 300..1200 values (thorough ..5000) built by tiling a grammar stream (every other tile reversed, tiles shifted); same oracle at every step. Reaches defects that need hundreds of updates (periodic re-synchronisation, counters, wrapped buffers).";
+        v.push(Clause::generated("C02", format!("C02/{}/long/Q", vd.name), lrule, 40, 1000, strategy_long(vd.mk), check_q(vd)).with_shard(8));
+        v.push(Clause::generated("C02", format!("C02/{}/long/f64", vd.name), lrule, 60, 2000, strategy_long(vd.mk), check_f64(vd)).with_shard(12));
     }
     v
 }
